@@ -2090,8 +2090,11 @@ example :
 
 /-- **`RecurrenceNetwork` on an adaptive plot, nothing deleted** (the setter, or an object
 without `missing_values`): for every table the adjacency is the stored `R` without its
-diagonal, `R` is the plot's matrix and the network has as many nodes as `R` has rows -/
-theorem adaptive_object_network_spec (m : Metric) (series S emb : List (List V))
+diagonal, `R` is the plot's matrix and the network has as many nodes as `R` has rows.
+PARTIAL: the full statement also covers the `RecurrenceNetwork` constructor with
+`missing_values=True` on an adaptive plot, where the states holding a missing value are deleted
+(`adaptiveObjNet` models it; driver, correspondence and oracle cover it; no theorem yet). -/
+theorem adaptive_object_network_spec_partial (m : Metric) (series S emb : List (List V))
     (norm mv setter : Bool) (e : Option (Nat × Nat)) (kA : Nat) (order : Option (List Nat))
     (sn : List (List Nat)) (p : Plot)
     (hS : storedSeries series norm = some S) (hE : stateVectors S e = .ok emb)
